@@ -91,9 +91,72 @@ def cells(tier):
                     continue
                 out.append(("%s/%s" % (name, op), d, [PRE, code.replace("{MK}", mk.replace("{n}", str(d)))], want))
         # two independently built cycles of the same length are equal?; the comparison must at least terminate
-        for d in (1, 2, 3, 10):
+        for d in (1, 2, 3, 10, 10000, 100000):
             if "{n}" in mk:
                 out.append(("%s/equal-twin-terminates" % name, d, [PRE, "(boolean? (equal? %s %s))" % (mk.replace("{n}", str(d)), mk.replace("{n}", str(d)))], "#t"))
+    return out
+
+
+# ---- every small cycle: kinds around the cycle x entry point x wrapper around the entry point
+MUT = ("box", "mvec", "mstruct")
+ALLK = ("box", "mvec", "mstruct", "list", "hash")
+
+
+def _mk_empty(k):
+    return {"box": "(box 0)", "mvec": "(vector 0 'x)", "mstruct": "(MNode 0)"}[k]
+
+
+def _wrap(k, x):
+    return {"box": "(box %s)", "mvec": "(vector %s 'x)", "mstruct": "(MNode %s)", "list": "(list 1 %s 2)", "hash": "(hash 'k %s)"}[k] % x
+
+
+def _tie(k, a, b):
+    return {"box": "(set-box! %s %s)", "mvec": "(vector-set! %s 0 %s)", "mstruct": "(set-MNode-next! %s %s)"}[k] % (a, b)
+
+
+def cycle_expr(kinds, root_i, wrapper):
+    k = len(kinds)
+    binds = ["(n0 %s)" % _mk_empty(kinds[0])]
+    for i in range(k - 1, 0, -1):
+        binds.append("(n%d %s)" % (i, _wrap(kinds[i], "n%d" % ((i + 1) % k))))
+    root = "n%d" % root_i
+    if wrapper:
+        root = _wrap(wrapper, root)
+    return "(let* (%s) %s %s)" % (" ".join(binds), _tie(kinds[0], "n0", "n1" if k > 1 else "n0"), root)
+
+
+CYCLE_OPS = [("print", "(string? (to-string {MK}))"), ("display", "(let ((p (open-output-string))) (display {MK} p) (string? (get-output-string p)))"),
+             ("write", "(let ((p (open-output-string))) (write {MK} p) (string? (get-output-string p)))"), ("equal-self", "(let ((x {MK})) (equal? x x))"),
+             ("equal-twin-terminates", "(boolean? (equal? {MK} {MK}))"), ("hash-key", "(begin (hash {MK} 1) #t)")]
+
+
+def small_cycles(tier):
+    import itertools
+    out = []
+    for k in ((1, 2, 3) if tier == "thorough" else (1, 2)):
+        for c0 in MUT:
+            for rest in itertools.product(ALLK, repeat=k - 1):
+                kinds = (c0,) + rest
+                for ri in range(k):
+                    for w in (None, "list", "mvec", "box", "hash"):
+                        out.append(("-".join(kinds), "entry %d%s" % (ri, " inside a " + w if w else ""), cycle_expr(kinds, ri, w)))
+    return out
+
+
+def work_cycles(lst):
+    out = []
+    for cyc, root, mk in lst:
+        for op, code in CYCLE_OPS:
+            r = common.run_cases([{"id": 0, "steps": [PRE, code.replace("{MK}", mk)]}], batch=1, timeout_ms=3000)[0]
+            if r["exit"] != "normal" or len(r["steps"]) < 2:
+                o = "crash:" + str(r["exit"]).split(":")[0] + (":" + str(r["exit"]).split(":")[1] if str(r["exit"]).startswith("signal") else "")
+            elif r["steps"][1]["s"] == "ok":
+                o = "ok" if r["steps"][1]["v"][-1] == "#t" else "wrong answer"
+            elif r["steps"][1]["s"] == "err":
+                o = "ok"  # an error value satisfies the property
+            else:
+                o = "panic"
+            out.append((cyc, root, op, o, code.replace("{MK}", mk)))
     return out
 
 
@@ -175,11 +238,30 @@ def main(argv=None):
             cls = o.split(":")[0] + (":" + o.split(":")[1].split("@")[0].strip().split(" ")[0] if o.startswith("crash") else "")
             rep.violation("%s => %s (smallest failing size on the ladder: %d)" % (name, cls, d), {"cell": name, "size": d, "outcome": o, "ladder": {str(k): v[0] for k, v in table[name].items()}},
                           {"case": {"steps": s}, "env": None, "timeout_ms": 90000})
-    cov = {"evaluations": len(res), "distinct_nontrivial": n_ok + n_err,
-           "rule": "grid = (%d chain shapes + %d wide shapes + %d cycle shapes) x %d operations x the size ladder (depth 10^3..10^5, thorough 10^6; width x10; "
+    cyc = small_cycles(a.tier)
+    cres = [x for r in common.pmap(work_cycles, common.chunks(cyc, 10)) for x in r]
+    groups = {}
+    for cname, root, op, o, code in cres:
+        groups.setdefault((cname, op), []).append((root, o, code))
+    n_cyc_ok = sum(1 for x in cres if x[3] == "ok")
+    for (cname, op), lst in sorted(groups.items()):
+        bad = [x for x in lst if x[1] != "ok"]
+        if not bad:
+            continue
+        classes = set(x[1] for x in bad)
+        if len(bad) == len(lst) and len(classes) == 1:
+            # every entry point of this cycle fails in the same way: one finding
+            rep.violation("cycle %s / %s => %s for every entry point" % (cname, op, bad[0][1]), {"cycle": cname, "operation": op, "outcome": bad[0][1], "entry_points": len(lst)},
+                          {"case": {"steps": [PRE, bad[0][2]]}, "env": None, "timeout_ms": 3000})
+        else:
+            for root, o, code in bad:
+                rep.violation("cycle %s, %s / %s => %s" % (cname, root, op, o), {"cycle": cname, "entry": root, "operation": op, "outcome": o}, {"case": {"steps": [PRE, code]}, "env": None, "timeout_ms": 3000})
+    cov = {"evaluations": len(res) + len(cres), "distinct_nontrivial": n_ok + n_err + n_cyc_ok,
+           "rule": "every cycle of length 1..2 (thorough 3) over {box, mutable vector, mutable struct, list, hash map} (first node mutable) x every entry point x {bare, inside a list / vector / box / hash map} x {print, display, write, equal? with itself, equal? with an independently built twin, use as hash key} with a 3 s limit; and "
+                   "grid = (%d chain shapes + %d wide shapes + %d cycle shapes) x %d operations x the size ladder (depth 10^3..10^5, thorough 10^6; width x10; "
                    "cycle lengths 1,2,3,10,10^4); each cell runs in a forked child with the default 8 MiB stack and a 90 s limit; non-trivial = cells that "
                    "completed with a value or an error value" % (len(SHAPES), len(WIDE), len(CYCLES), len(OPS)),
-           "samples": [cs[7][2][1], cs[len(cs) // 2][2][1], cs[-1][2][1]], "exhaustive": True, "cells": len(cs), "ok": n_ok, "inconclusive_slow_cells": inconclusive, "time_limit_s": limit_ms / 1000, "error_values": n_err,
+           "samples": [cs[7][2][1], cs[len(cs) // 2][2][1], cs[-1][2][1]], "exhaustive": True, "cells": len(cs), "small_cycle_cells": len(cres), "ok": n_ok, "inconclusive_slow_cells": inconclusive, "time_limit_s": limit_ms / 1000, "error_values": n_err,
            "error_value_cells": sorted(set("%s@%d" % (n, d) for n, d, o, _ in res if o == "error-value"))[:60]}
     return rep.finish("exploration", cov, assumptions=["an error VALUE (e.g. a depth limit reported as an error) satisfies the property; a signal, abort, panic or timeout does not"])
 
